@@ -137,8 +137,7 @@ def runCase (st : DState) (what id : String) : List String :=
           ("L\t" ++ (Text.tuneToken ns sh.name).render.drop 1) ::      -- the label is the reference token without '@'
           sh.stmts.map fun s =>
             "S\t" ++ (Text.tuneToken ns s.prop).render ++ "\t" ++
-              "|".intercalate (s.types.map fun ty =>
-                if s.prop == st.cfg.instProp then "[" ++ (Text.tuneToken ns ty).render ++ "]" else (Text.tuneToken ns ty).render)
+              "|".intercalate (s.types.map (Text.valueToken st.cfg ns s))
     | "ntlines" =>
       st.rawLines.toList.map fun l =>
         let term : Term → String
